@@ -159,7 +159,10 @@ _OOB = ["c11::c11_insert_oob_n0_s0", "c11::c11_insert_oob_n2_s0", "c11::c11_inse
 PROPS["C11"] = {
     "crate": "rt",
     "groups": [
-        {"id": "step", "quick": _c11(_C11["step_q"]) + _c11(_C11["misc"]) + _OOB + ["c11::c11_negative_twin"],
+        {"id": "step", "quick": _c11(_C11["step_q"]) + _c11(_C11["misc"]) + _OOB + ["c11::c11_negative_twin"] +
+         # "its buffer is always grown and freed through the functions stored in it": a vector fabricated with foreign
+         # reserve/drop functions over non-heap memory (shared with C05)
+         ["c05::c05_foreign_cvec_i0", "c05::c05_foreign_cvec_i1", "c05::c05_foreign_cvec_i2"],
          "thorough_adds": _c11(_C11["step_t"]), "timeout": 1800, "mem_gb": 10},
         {"id": "seq", "quick": _c11(_C11["seq2_q"]), "thorough_adds": _c11(_C11["seq2_t"]) + _c11(_C11["seq3_t"]),
          "timeout": 1800, "mem_gb": 10},
